@@ -191,7 +191,7 @@ def schema_printer(chk, facts):
         ok = marks.get("0") == ["?"] and marks.get("else") == [""]
         n += 1
         chk.ob(rule, "attribute:optional", ok, "`?` is printed exactly when `required` is false: %s" % marks, where=f.where(), fn=f.name, key="%s:attribute:optional" % rule)
-    chk.floor(rule, "printed components", n, 10)
+    chk.floor(rule, "printed components", n, 9)
 
 
 def collision_guard(chk, facts):
